@@ -70,6 +70,9 @@ struct shared_timed_mutex {
 namespace lg = gmlc::libguarded;
 namespace gc = gmlc::concurrency;
 
+DECLARE_TRIPLINE()
+DECLARE_INDEXED_TRIPLINES(60000)
+
 namespace {
 
 using Payload = std::vector<int>;     // plain, non-atomic, heap-backed: races and use-after-free are visible to the sanitizers
@@ -373,6 +376,34 @@ void sj_tripwire(const vh::Case& c, Failure& F, int reps) {
     }
 }
 
+// indexed lines: every repetition uses an index nobody in this process has touched yet, and its first users (a trigger in one thread,
+// detectors in the others) arrive concurrently
+std::atomic<unsigned> g_next_index{0};
+void sj_tripwire_indexed(const vh::Case& c, Failure& F, int reps) {
+    for (int r = 0; r < reps; ++r) {
+        unsigned idx = g_next_index.fetch_add(1);
+        if (idx >= 60000) return;
+        std::atomic<bool> trigger_destroyed{false};
+        int datum = 0;
+        run_threads((int)c.fibers.size(), [&](int t) {
+            const auto& ops = c.fibers[(size_t)t];
+            jitter(ops.empty() ? 0 : ops[0].b);
+            if (t == 0) { { gc::TripWireTrigger trig(idx); datum = r + 1; } trigger_destroyed.store(true); }
+            else {
+                gc::TripWireDetector d(idx);
+                while (!trigger_destroyed.load()) std::this_thread::yield();
+                if (!d.isTripped()) F.report("not-tripped", "a detector on an indexed line reports false after the trigger on that line was destroyed");
+                else if (datum != r + 1) F.report("publication", "data written before the trip is not visible after observing it");
+            }
+        });
+        gc::TripWireDetector late(idx);
+        if (!late.isTripped()) F.report("not-tripped", "a new detector on an indexed line reports false after the trigger on that line was destroyed");
+        bool threw = false;
+        try { gc::TripWireDetector bad(60000u + (unsigned)r); (void)bad; } catch (const std::out_of_range&) { threw = true; }
+        if (!threw) F.report("index-accepted", "an out-of-range index was accepted");
+    }
+}
+
 vh::Outcome run_rt(const vh::Case& c0, int only_subject) {
     vh::Outcome out;
     vh::Case c = c0;
@@ -397,7 +428,7 @@ vh::Outcome run_rt(const vh::Case& c0, int only_subject) {
         case SJ_DD: sj_dd(c, F, reps); break;
         case SJ_SOH: sj_soh(c, F, reps); break;
         case SJ_DOBJ: sj_dobj(c, F, reps); break;
-        default: sj_tripwire(c, F, reps); break;
+        default: if (variant & 1) sj_tripwire_indexed(c, F, std::min(reps, 8)); else sj_tripwire(c, F, reps); break;
     }
     if (F.set.load()) { out.res.violation = true; out.res.kind = F.kind; out.res.msg = F.msg; }
     out.labels.push_back(std::string("subject=") + sjname[sj]);
@@ -420,6 +451,7 @@ vh::Register r_soh("RTsoh", spec(false), spec(true), [](const vh::Case& c) { ret
 vh::Register r_dobj("RTdobj", spec(false), spec(true), [](const vh::Case& c) { return run_rt(c, SJ_DOBJ); }, RULE);
 vh::Register r_cow("RTcow", spec(false), spec(true), [](const vh::Case& c) { return run_rt(c, SJ_COW); }, RULE);
 vh::Register r_rcu("RTrcu", spec(false), spec(true), [](const vh::Case& c) { return run_rt(c, SJ_RCU); }, RULE);
+vh::Register r_tw("RTtw", spec(false), spec(true), [](const vh::Case& c) { return run_rt(c, SJ_TRIPWIRE); }, RULE);
 vh::Register r_lr("RTlr", spec(false), spec(true), [](const vh::Case& c) { return run_rt(c, SJ_LR); }, RULE);
 
 }  // namespace
